@@ -6,6 +6,7 @@ package kcache
 import (
 	"encoding/hex"
 	"fmt"
+	"strings"
 
 	"github.com/elastic/go-structform/gotype"
 
@@ -41,7 +42,18 @@ func newKeyGen(c *simkit.Choices) *keyGen {
 	g := &keyGen{c: c}
 	// key alphabets are structured so that any shortcut in the cache lookup
 	// (prefix, suffix, length, hash of a part) makes two keys collide
-	mode := c.N(9)
+	mode := c.N(11)
+	if mode == 10 && c.N(3) != 0 {
+		mode = c.N(10) // very long keys are expensive: a third of their share
+	}
+	if mode == 10 && n > 3 {
+		n = 3
+	}
+	base := []string{"", "id", "abcdefg", "k", "abc"}[c.N(5)]
+	long := 4000 + c.N(300)
+	if c.N(3) == 0 {
+		long = []int{4095, 4096, 4097, 8191, 8192, 8193, 65535, 65536}[c.N(8)]
+	}
 	filler := "system.process.cpu.load.average.per.core.normalized.value.of.the.last.minute"
 	pre := filler[:c.N(len(filler))]
 	for i := 0; i < n; i++ {
@@ -61,6 +73,23 @@ func newKeyGen(c *simkit.Choices) *keyGen {
 			k = string(b)
 		case 5: // multi-byte runes, common prefix
 			k = pre[:len(pre)/2] + string([]rune{rune(0x4e2d + i), 0xe9})
+		case 9: // keys that differ only by NUL padding and length-like trailing bytes (packed representations collide)
+			switch i % 4 {
+			case 0:
+				k = base
+			case 1:
+				pad := 8 - len(base) - 1
+				if pad < 0 {
+					pad = 0
+				}
+				k = base + strings.Repeat("\x00", pad) + string([]byte{byte(len(base))})
+			case 2:
+				k = base + strings.Repeat("\x00", 1+i/4)
+			default:
+				k = strings.Repeat("\x00", 8-i/4%8)
+			}
+		case 10: // very long keys sharing everything but the tail (block / length limits)
+			k = strings.Repeat("k", long) + string(rune('a'+i))
 		case 6: // single bytes, incl. 0x80-0xff (not valid UTF-8: Latin-1 / binary keys)
 			k = string([]byte{byte(0x61 + 37*i + 128*c.N(2))})
 		case 7: // arbitrary short byte strings
